@@ -8,49 +8,68 @@ import (
 	"sort"
 	"strings"
 
-	"golang.org/x/tools/go/cfg"
+	"golang.org/x/tools/go/callgraph"
 	"golang.org/x/tools/go/packages"
 	"golang.org/x/tools/go/ssa"
 
 	"osmcheck/core"
 )
 
-// Unexported identifiers this file is keyed on (last-resort anchors, DESIGN §2.2 class 3):
+// Unexported identifiers the C17 rules are keyed on (last-resort anchors, DESIGN §2.2 class 3):
 //   osmgeojson.context                  the conversion context struct (found as the parameter type of Option)
-//   context.noID, noMeta, noRelationMembership, includeInvalidPolygons   the option fields (c17OptionRoles)
-// Everything else is resolved by role: the option fields are the context fields assigned in functions of
-// type Option; the membership map is the context field of type map[osm.FeatureID][]…; the skippable set is
-// the context field of type map[osm.WayID]struct{}; the meta switch is the type switch over osm.Element
-// with cases *osm.Node/*osm.Way/*osm.Relation; the feature list is the variable stored into
-// FeatureCollection.Features in the exported function Convert.
+//   context.noID, noMeta, noRelationMembership, includeInvalidPolygons   the option fields (c17OptionRoles gives
+//                                       each its documented role)
+// Everything else is resolved by role, never by name or file:
+//   - the option fields are the context fields assigned in functions of type Option;
+//   - the membership map is the context field of type map[osm.FeatureID][]…; the skippable set is the context
+//     field of type map[osm.WayID]struct{};
+//   - the interest predicate is the package function of type func(osm.Tags, map[string]string) bool;
+//   - the multipolygon builder is any function that handles orb.MultiPolygon values or is called only from such;
+//   - the meta switch is the type switch over osm.Element with cases *osm.Node/*osm.Way/*osm.Relation, wherever it is;
+//   - feature emissions are appends to / literals of []*geojson.Feature and FeatureCollection.Append, element
+//     passes are ranges over osm.Relations/osm.Ways/osm.Nodes, found from the exported Convert through helpers.
+// Files: c17.go (registration, G1, G2, G4), c17_cfg.go (CFG facts, finite-domain evaluation, regions, effects),
+// c17_g3.go, c17_g5.go, c17_g6.go, c17_benign.go (behaviour-preserving variants and defects in refactored shapes).
 
 func init() {
 	register(&core.Property{
 		ID:    "C17",
 		Title: "GeoJSON conversion maps elements to features exactly; options only subtract",
-		Explanation: "Structural necessary conditions, decided for the whole call tree of osmgeojson.Convert (SSA + VTA call graph): " +
+		Explanation: "Structural necessary conditions, decided for the whole call tree of osmgeojson.Convert (SSA + VTA call graph) and on the control-flow graphs of package osmgeojson: " +
 			"(G1) no reachable repository function stores, map-updates, appends in place, copies, deletes, sorts or reverses into memory whose type can be input memory (the types reachable from *osm.OSM) unless that memory was allocated in the same function, and none writes package-level state; " +
 			"(G2) no range over a map in the call tree appends to, or picks an element for, anything that outlives the loop; " +
-			"(G3) every read of an option field has the documented role (noID guards only Feature.ID; noMeta guards only the early return before the meta object; noRelationMembership guards only the relations property and the non-node membership bookkeeping whose entries are read nowhere else; includeInvalidPolygons only disables skips in buildPolygon/addToMultiPolygon) and every option field is written only by its own Option constructor; " +
-			"(G4) the node/way/relation cases of the meta type switch are identical up to the element type; " +
-			"(G5) every element loop of Convert appends at most one feature per iteration on every path, the way loop skips the skippable set, which is complete before the way loop starts. " +
-			"NOT decided: geometry values (ring winding, joined route geometry), the tag-interest rule, which nodes become points, JSON encoding of the result, mutation through reflection/unsafe, functions only reachable through calls VTA cannot resolve.",
+			"(G3) options only subtract: the value of an option field flows only into branch conditions (directly, through a local assigned once, a parameter or a one-line predicate helper); at every branch whose outcome depends on the option (three-valued evaluation of the condition with the option set and unset), the side taken when the option subtracts has no effect of its own and leaves only by nil/zero/unchanged-argument returns, and what it bypasses is, besides region-local state, only what the option documents (noID: stores of Feature.ID; noMeta: the meta property; noRelationMembership: the relations property, or updates of the membership map that are not bypassed when the member is a node; includeInvalidPolygons: only removes skips, and only inside the multipolygon builder); every store of Feature.ID / the meta / the relations property and every non-node-keyed read of the membership map is unreachable when the respective option is set; every option field is written only by its own Option constructor; " +
+			"(G4) the node/way/relation cases of the meta type switch are identical up to the element type, the names of case-local variables and the order of independent map fills; " +
+			"(G5) every feature emission reachable from Convert lies in exactly one element pass (range over the input's relations, ways or nodes, in Convert or in a helper), every path through one iteration emits at most one feature (helpers counted with their per-call maximum), in the ways pass every emission is controlled by the test that the way is not in the skippable set, and the relation pass, which fills that set, is complete before the ways pass starts; " +
+			"(G6) outside the multipolygon builder a way is put into the skippable set only under the fact that the interest predicate is false for that way's tags with a nil discount set. " +
+			"All of G3-G6 are decided on guard facts and reachability, so if/switch forms, inverted branches, early returns, merged or split guards, if-init forms, locals naming a condition, extracted or inlined helpers and moved functions do not change the verdict. " +
+			"NOT decided: geometry values (ring winding, joined route geometry), the tag-interest rule itself, which nodes become points, JSON encoding of the result, mutation through reflection/unsafe, functions only reachable through calls VTA cannot resolve, option values that reach a function literal (reported as undecidable).",
 		Assumptions: []string{"go/types, go/cfg, go/ssa, VTA call graph (x/tools v0.29.0)", "no unsafe/reflect-based writes in the call tree: input memory is only reachable through the types reachable from osm.OSM",
-			"non-repository callees do not write through their arguments except the enumerated in-place mutators (sort.*, slices.*, Reverse/Sort* methods); any other external callee receiving input memory is reported as undecided unless allow-listed as read-only"},
-		LevelText: "Structural necessary conditions of the conversion contract, decided at every memory write of every repository function reachable from osmgeojson.Convert (input immutability, no package state), every map range in that tree (determinism), every read and write site of each option field (options only subtract), the three meta cases (sibling agreement) and every path through the three element loops (at most one feature per element). Geometry values and the tag-interest semantics are not decided.",
-		LevelNote: "Trusts the type checker, go/ssa and the VTA call graph; type-based effect analysis is sound only without unsafe/reflect writes; writes performed inside non-repository callees are covered by an enumerated mutator list plus an undecided verdict for unknown callees receiving input memory.",
-		Technique: "SSA type-based effect analysis with allocation-freshness over the VTA call tree of Convert; AST/type-resolved guard-role classification per option read site; type-directed structural comparison of sibling cases; path counting over go/cfg loop bodies",
+			"non-repository callees do not write through their arguments except the enumerated in-place mutators (sort.*, slices.*, Reverse/Sort* methods); any other external callee receiving input memory is reported as undecided unless allow-listed as read-only",
+			"G3 effect analysis: functions of packages osm, time and fmt and conversions/len/cap/make/new/append/panic have no effect visible to the option roles (writes of package osm functions are decided by G1); same-package callees are followed four levels deep"},
+		LevelText: "Structural necessary conditions of the conversion contract, decided at every memory write of every repository function reachable from osmgeojson.Convert (input immutability, no package state), every map range in that tree (determinism), every branch of package osmgeojson whose outcome depends on an option field (options only subtract: differential evaluation option set/unset, exclusive and bypassed regions of the CFG, effects followed into helpers), every store of Feature.ID/meta/relations and every read of the membership map (unreachable under the option), the three meta cases (sibling agreement) and every path through the three element passes (at most one feature per element, skippable ways not emitted, relation pass before ways pass). Geometry values and the tag-interest semantics are not decided.",
+		LevelNote: "Trusts the type checker, go/cfg, go/ssa and the VTA call graph; type-based effect analysis is sound only without unsafe/reflect writes; writes performed inside non-repository callees are covered by an enumerated mutator list plus an undecided verdict for unknown callees receiving input memory. Instance floors count things a refactoring cannot remove (exported API in the call tree, option fields, element kinds), not statements.",
+		Technique: "SSA type-based effect analysis with allocation-freshness over the VTA call tree of Convert; go/cfg guard facts, three-valued finite-domain evaluation of branch conditions under option valuations, exclusive/bypassed CFG regions with interprocedural effect summaries; type-directed structural comparison of sibling cases modulo local naming and commuting statements; path counting over go/cfg loop bodies with per-call emission maxima",
 		DesignRef: "DESIGN.md §5 C17",
 		NeedSSA:   true,
+		Benign:    c17Benign,
 		Rules: []*core.Rule{
-			{ID: "G1", Floor: 34, Doc: "input immutability: no write into input-typed memory or package state anywhere in the call tree of Convert", Run: c17G1},
-			{ID: "G2", Floor: 34, Doc: "determinism: no order-dependent range over a map in the call tree of Convert", Run: c17G2},
-			{ID: "G3", Floor: 22, Doc: "each option field is read only in its documented role and written only by its constructor", Run: c17G3},
-			{ID: "G4", Floor: 3, Doc: "node/way/relation meta cases are identical up to the element type", Run: c17G4},
-			{ID: "G5", Floor: 5, Doc: "each element loop appends at most one feature per iteration; skippable ways are not appended", Run: c17G5},
-			{ID: "G6", Floor: 4, Doc: "a way becomes skippable only when it has no interesting tag of its own", Run: c17G6},
+			// Floors count what a behaviour-preserving refactoring cannot remove:
+			// G1/G2: Convert, the four option setters and the exported osm/mputil API the conversion needs (Tags.Map, Tags.Find,
+			//        Way.Polygon, Member/Node/Way/Relation FeatureID, mputil.Join, MultiSegment.Ring/LineString) are ≥ 12 functions
+			//        (38 in the tree today; unexported helpers may be inlined or split freely);
+			// G3: 4 option writes + at least one branch per option (two for noRelationMembership) + one guarded store of
+			//     Feature.ID, meta and relations each + one membership read = 13, floor 10;
+			// G4: the three element cases; G5: three passes + skippable + order; G6: the route builder's store and at least one
+			//     store in the multipolygon builder.
+			{ID: "G1", Floor: 12, Doc: "input immutability: no write into input-typed memory or package state anywhere in the call tree of Convert", Run: c17G1},
+			{ID: "G2", Floor: 12, Doc: "determinism: no order-dependent range over a map in the call tree of Convert", Run: c17G2},
+			{ID: "G3", Floor: 10, Doc: "options only subtract: each option decides only branches whose subtracting side has no effect of its own and bypasses only what the option documents; option fields are written only by their constructors", Run: c17G3},
+			{ID: "G4", Floor: 3, Doc: "node/way/relation meta cases are identical up to the element type, local names and the order of independent map fills", Run: c17G4},
+			{ID: "G5", Floor: 5, Doc: "each element pass emits at most one feature per iteration on every path; skippable ways are not emitted; the relation pass precedes the ways pass", Run: c17G5},
+			{ID: "G6", Floor: 2, Doc: "a way becomes skippable only when it has no interesting tag of its own (outside the multipolygon builder)", Run: c17G6},
 		},
-		Mutants: []core.Mutant{
+		Mutants: append([]core.Mutant{
 			{Name: "g6-route-way-ignores-relation-tags", File: "osmgeojson/convert.go", Find: "if !hasInterestingTags(way.Tags, nil) {\n\t\t\tctx.skippable[way.ID] = struct{}{}", Replace: "if !hasInterestingTags(way.Tags, relation.Tags.Map()) {\n\t\t\tctx.skippable[way.ID] = struct{}{}", ExpectRule: "G6", ExpectConstruct: "buildRouteLineString"},
 			// G1
 			{Name: "g1-linestring-writes-way-nodes", File: "osmgeojson/convert.go", Find: "for _, wn := range w.Nodes {\n\t\tif wn.Lon != 0", Replace: "for i, wn := range w.Nodes {\n\t\tw.Nodes[i].Version = 0\n\t\tif wn.Lon != 0", ExpectRule: "G1", ExpectConstruct: "wayToLineString"},
@@ -89,7 +108,7 @@ func init() {
 			{Name: "g5-skippable-not-skipped", File: "osmgeojson/convert.go", Find: "\t\tif _, skip := ctx.skippable[way.ID]; skip {\n\t\t\tcontinue\n\t\t}\n", Replace: "", ExpectRule: "G5", ExpectConstruct: "skippable@Convert ways"},
 			{Name: "g5-skippable-inverted", File: "osmgeojson/convert.go", Find: "if _, skip := ctx.skippable[way.ID]; skip {", Replace: "if _, skip := ctx.skippable[way.ID]; !skip {", ExpectRule: "G5", ExpectConstruct: "skippable@Convert ways"},
 			{Name: "g5-node-loop-appends-in-inner-loop", File: "osmgeojson/convert.go", Find: "\t\tfeature := ctx.nodeToFeature(node)\n\t\tif feature != nil {\n\t\t\tfeatures = append(features, feature)\n\t\t}\n", Replace: "\t\tfeature := ctx.nodeToFeature(node)\n\t\tfor range ctx.relationMember[node.FeatureID()] {\n\t\t\tfeatures = append(features, feature)\n\t\t}\n", ExpectRule: "G5", ExpectConstruct: "loop@Convert nodes"},
-		},
+		}, c17RefactoredMutants...),
 	})
 }
 
@@ -702,6 +721,7 @@ func c17G1(r *core.R) {
 		ws := c17FunctionWrites(r.P, cgOut, fn)
 		r.Stat("memory_writes_examined", len(ws))
 		nInputTyped := 0
+		nViaCaller := 0
 		bad := 0
 		for _, w := range ws {
 			var origins []c17Origin
@@ -742,6 +762,11 @@ func c17G1(r *core.R) {
 			if allFresh {
 				continue
 			}
+			if !w.undec && c17FreshAtCallers(cg, fn, origins) {
+				// an extracted helper filling memory its callers have just allocated (`w := &osm.Way{}; fill(w, m)`)
+				nViaCaller++
+				continue
+			}
 			bad++
 			root := c17OriginDesc(culprit)
 			if w.undec {
@@ -757,11 +782,69 @@ func c17G1(r *core.R) {
 			if len(ws) == 0 {
 				r.OKTrivial(c, pos, "no memory write in the function [path: %s]", t.path(fn))
 			} else {
-				r.OK(c, pos, "%d write(s) examined (stores, map updates, append/copy/delete, external mutators): %d into input-typed memory, each rooted in an allocation of this function; none into package state [path: %s]",
-					len(ws), nInputTyped, t.path(fn))
+				r.OK(c, pos, "%d write(s) examined (stores, map updates, append/copy/delete, external mutators): %d into input-typed memory, each rooted in an allocation of this function (%d through a parameter that every caller binds to its own fresh allocation); none into package state [path: %s]",
+					len(ws), nInputTyped, nViaCaller, t.path(fn))
 			}
 		}
 	}
+}
+
+// c17FreshAtCallers: every non-fresh origin of the write is a parameter of fn itself (no pointer loaded on the way), fn
+// is an unexported function reached only by static calls, and at every call site the corresponding argument is rooted
+// only in allocations of the caller. This is what "extract function" produces when the extracted statements fill a
+// value the original function allocated.
+func c17FreshAtCallers(cg *callgraph.Graph, fn *ssa.Function, origins []c17Origin) bool {
+	obj, _ := fn.Object().(*types.Func)
+	if obj == nil || obj.Exported() || fn.Parent() != nil {
+		return false
+	}
+	node := cg.Nodes[fn]
+	if node == nil || len(node.In) == 0 {
+		return false
+	}
+	for _, o := range origins {
+		if o.fresh() {
+			continue
+		}
+		prm, ok := o.v.(*ssa.Parameter)
+		if !ok || o.kind != "param" || o.viaLoad {
+			return false
+		}
+		idx := -1
+		for i, p := range fn.Params {
+			if p == prm {
+				idx = i
+			}
+		}
+		if idx < 0 {
+			return false
+		}
+		for _, e := range node.In {
+			if e.Site == nil || e.Site.Common().StaticCallee() != fn || idx >= len(e.Site.Common().Args) {
+				return false
+			}
+			if _, isGo := e.Site.(*ssa.Go); isGo {
+				return false
+			}
+			var argOrigins []c17Origin
+			c17Origins(e.Site.Common().Args[idx], false, map[ssa.Value]bool{}, &argOrigins)
+			if len(argOrigins) == 0 {
+				return false
+			}
+			for _, ao := range argOrigins {
+				if !ao.fresh() {
+					return false
+				}
+			}
+		}
+	}
+	// a function whose address is taken could be called with anything
+	for _, e := range node.In {
+		if e.Site == nil {
+			return false
+		}
+	}
+	return true
 }
 
 func c17IsRepoPkgPath(p string) bool {
@@ -1090,9 +1173,6 @@ var c17OptionRoles = map[string]string{
 	"includeInvalidPolygons": "invalid",
 }
 
-// functions allowed to read includeInvalidPolygons (unexported anchors, DESIGN §5 C17.G3)
-var c17InvalidPolygonFuncs = map[string]bool{"(*context).buildPolygon": true, "addToMultiPolygon": true}
-
 const c17FeaturePath = "github.com/paulmach/orb/geojson.Feature"
 
 type c17Opt struct {
@@ -1203,64 +1283,6 @@ func c17IsAssignLHS(par map[ast.Node]ast.Node, e ast.Expr) bool {
 	}
 }
 
-// c17Conjuncts flattens a && chain.
-func c17Conjuncts(e ast.Expr) []ast.Expr {
-	e = ast.Unparen(e)
-	if be, ok := e.(*ast.BinaryExpr); ok && be.Op == token.LAND {
-		return append(c17Conjuncts(be.X), c17Conjuncts(be.Y)...)
-	}
-	return []ast.Expr{e}
-}
-
-// c17GuardOf locates the if statement whose condition has the read as a conjunct.
-// polarity +1: the option itself is the conjunct; -1: its negation; 0: the read is not a conjunct of an if condition.
-func c17GuardOf(par map[ast.Node]ast.Node, read ast.Expr) (ifs *ast.IfStmt, polarity int, others []ast.Expr) {
-	var n ast.Node = read
-	polarity = 1
-	for {
-		p := par[n]
-		switch x := p.(type) {
-		case *ast.ParenExpr:
-			n = p
-			continue
-		case *ast.UnaryExpr:
-			if x.Op == token.NOT {
-				polarity = -polarity
-				n = p
-				continue
-			}
-			return nil, 0, nil
-		}
-		break
-	}
-	conj := n
-	for {
-		p := par[n]
-		switch x := p.(type) {
-		case *ast.ParenExpr:
-			n = p
-			continue
-		case *ast.BinaryExpr:
-			if x.Op == token.LAND {
-				n = p
-				continue
-			}
-			return nil, 0, nil
-		case *ast.IfStmt:
-			if x.Cond != n {
-				return nil, 0, nil
-			}
-			for _, c := range c17Conjuncts(x.Cond) {
-				if c != conj && ast.Unparen(c) != ast.Unparen(conj.(ast.Expr)) {
-					others = append(others, c)
-				}
-			}
-			return x, polarity, others
-		}
-		return nil, 0, nil
-	}
-}
-
 // c17PropKey returns the constant property name of `X["name"]` where X is a map with string keys.
 func c17PropKey(info *types.Info, e ast.Expr) (string, bool) {
 	ix, ok := ast.Unparen(e).(*ast.IndexExpr)
@@ -1293,62 +1315,6 @@ func c17PureCall(info *types.Info, call *ast.CallExpr) bool {
 	return false
 }
 
-// c17RegionEffects checks every assignment and call in the statements: allowed targets are locals declared
-// inside scope, and whatever allow accepts. It returns the first disallowed effect.
-func c17RegionEffects(fset *token.FileSet, info *types.Info, stmts []ast.Stmt, scope ast.Node, allow func(lhs ast.Expr, as *ast.AssignStmt, i int) bool) (bad string, unknown string) {
-	tsAssign := map[ast.Node]bool{}
-	for _, st := range stmts {
-		ast.Inspect(st, func(n ast.Node) bool {
-			if bad != "" {
-				return false
-			}
-			switch x := n.(type) {
-			case *ast.TypeSwitchStmt:
-				tsAssign[x.Assign] = true // `v := x.(type)` binds a per-clause local
-			case *ast.AssignStmt:
-				if tsAssign[x] {
-					return true
-				}
-				for i, l := range x.Lhs {
-					l = ast.Unparen(l)
-					if id, ok := l.(*ast.Ident); ok {
-						if id.Name == "_" {
-							continue
-						}
-						if o := objOf(info, id); c17IsLocalTo(o, scope) {
-							continue
-						}
-					}
-					if allow(l, x, i) {
-						continue
-					}
-					if root := rootObj(info, l); root != nil {
-						if _, isIdent := l.(*ast.Ident); !isIdent && c17IsLocalTo(root, scope) {
-							if _, isMap := root.Type().Underlying().(*types.Map); isMap {
-								continue // fills a map created inside the region
-							}
-						}
-					}
-					bad = fmt.Sprintf("`%s` (%s)", src(fset, x), fset.Position(x.Pos()).String()[strings.LastIndexByte(fset.Position(x.Pos()).String(), '/')+1:])
-					return false
-				}
-			case *ast.IncDecStmt:
-				if o := rootObj(info, x.X); !c17IsLocalTo(o, scope) {
-					bad = fmt.Sprintf("`%s`", src(fset, x))
-				}
-			case *ast.CallExpr:
-				if !c17PureCall(info, x) && unknown == "" {
-					unknown = fmt.Sprintf("call `%s` whose effects are not known to the rule", src(fset, x))
-				}
-			case *ast.GoStmt, *ast.SendStmt, *ast.DeferStmt:
-				bad = fmt.Sprintf("`%s`", src(fset, x))
-			}
-			return true
-		})
-	}
-	return
-}
-
 type c17Read struct {
 	fi   *FuncInfo
 	expr ast.Expr
@@ -1377,30 +1343,6 @@ func c17FieldReads(p *core.Program, pk *packages.Package, f *types.Var) []c17Rea
 	return out
 }
 
-// c17SkipBody reports whether the block only leaves: `continue`, or a return of nil/zero constants or of an
-// unmodified parameter.
-func c17SkipBody(info *types.Info, fi *FuncInfo, body *ast.BlockStmt) bool {
-	if len(body.List) != 1 {
-		return false
-	}
-	switch x := body.List[0].(type) {
-	case *ast.BranchStmt:
-		return x.Tok == token.CONTINUE
-	case *ast.ReturnStmt:
-		for _, res := range x.Results {
-			if tv, ok := info.Types[res]; ok && (tv.IsNil() || tv.Value != nil) {
-				continue
-			}
-			if o, ok := objOf(info, res).(*types.Var); ok && c17IsParam(fi, o) {
-				continue
-			}
-			return false
-		}
-		return true
-	}
-	return false
-}
-
 func c17IsParam(fi *FuncInfo, o *types.Var) bool {
 	sig := fi.Obj.Type().(*types.Signature)
 	for i := 0; i < sig.Params().Len(); i++ {
@@ -1411,494 +1353,137 @@ func c17IsParam(fi *FuncInfo, o *types.Var) bool {
 	return false
 }
 
-func c17G3(r *core.R) {
-	o := c17LoadOptions(r)
-	if o == nil {
-		return
-	}
-	pk, info, fset := o.pk, o.info, r.P.Fset
-	if len(o.fields) == 0 {
-		r.Anchor("option fields of the conversion context (assigned in Option closures)")
-		return
-	}
-	if o.member == nil {
-		r.Anchor("context field of type map[osm.FeatureID][]… (relation membership)")
-		return
-	}
-	for want := range c17OptionRoles {
-		found := false
-		for _, f := range o.fields {
-			if f.Name() == want {
-				found = true
-			}
-		}
-		if !found {
-			r.Anchor("option field context." + want)
-		}
-	}
-	// (a) writes: each option field is assigned once, in its own constructor, from the constructor's parameter
-	for _, f := range o.fields {
-		c := "write@" + f.Name()
-		type site struct {
-			as   *ast.AssignStmt
-			fi   *FuncInfo
-			lit  *ast.FuncLit
-			rhs  ast.Expr
-			nlhs int
-		}
-		var sites []site
-		for _, fi := range allFuncs(pk) {
-			par := parentsOf(r.P, fi)
-			ast.Inspect(fi.Decl.Body, func(n ast.Node) bool {
-				as, ok := n.(*ast.AssignStmt)
-				if !ok {
-					return true
-				}
-				for i, l := range as.Lhs {
-					if fieldOf(info, l) == f {
-						s := site{as: as, fi: fi, nlhs: len(as.Lhs)}
-						if len(as.Rhs) == len(as.Lhs) {
-							s.rhs = as.Rhs[i]
-						}
-						s.lit, _ = enclosing(par, as, func(x ast.Node) bool { _, ok := x.(*ast.FuncLit); return ok }).(*ast.FuncLit)
-						sites = append(sites, s)
-					}
-				}
-				return true
-			})
-		}
-		// composite literals of the context must not set option fields either
-		for _, fi := range allFuncs(pk) {
-			ast.Inspect(fi.Decl.Body, func(n ast.Node) bool {
-				cl, ok := n.(*ast.CompositeLit)
-				if !ok || namedPath(info.TypeOf(cl)) != namedPath(o.ctxNamed) {
-					return true
-				}
-				for _, e := range cl.Elts {
-					if kv, ok := e.(*ast.KeyValueExpr); ok {
-						if id, ok := kv.Key.(*ast.Ident); ok && info.Uses[id] == f {
-							sites = append(sites, site{fi: fi})
-						}
-					} else {
-						sites = append(sites, site{fi: fi}) // positional literal sets every field
-					}
-				}
-				return true
-			})
-		}
-		switch {
-		case len(sites) != 1:
-			pos := f.Pos()
-			r.Bad(c, pos, "option field %s is written at %d sites; it must be set only by its own Option constructor, otherwise another option (or the conversion itself) changes what this option documents", f.Name(), len(sites))
-		default:
-			s := sites[0]
-			okCtor := s.lit != nil && types.Identical(info.TypeOf(s.lit), o.optSig) && s.fi.Decl.Recv == nil && s.fi.Obj.Exported()
-			var prm *types.Var
-			if s.rhs != nil {
-				prm, _ = objOf(info, s.rhs).(*types.Var)
-			}
-			nOther := 0
-			if s.lit != nil {
-				ast.Inspect(s.lit.Body, func(n ast.Node) bool {
-					if as, ok := n.(*ast.AssignStmt); ok {
-						for _, l := range as.Lhs {
-							if fv := fieldOf(info, l); fv != nil && fv != f && o.isCtxField(fv) {
-								nOther++
-							}
-						}
-					}
-					return true
-				})
-			}
-			switch {
-			case !okCtor:
-				r.Bad(c, s.as.Pos(), "option field %s is assigned in %s outside an exported Option constructor's closure", f.Name(), s.fi.Name())
-			case prm == nil || !c17IsParam(s.fi, prm):
-				r.Bad(c, s.as.Pos(), "`%s`: the option field is not set from the constructor's parameter", src(fset, s.as))
-			case nOther > 0:
-				r.Bad(c, s.as.Pos(), "the closure of %s also assigns %d other context field(s): the option changes more than it documents", s.fi.Name(), nOther)
-			default:
-				r.OK(c, s.as.Pos(), "only write site: `%s` in the closure returned by %s(%s), which assigns no other context field", src(fset, s.as), s.fi.Name(), prm.Name())
-			}
-		}
-	}
-
-	// the bookkeeping region guarded by noRelationMembership (needed to classify membership-map reads)
-	var bookkeeping *ast.RangeStmt
-	var propGuards []*ast.IfStmt // `if !noRelationMembership {…}` statements
-
-	// (b) reads
-	for _, f := range o.fields {
-		role, ok := c17OptionRoles[f.Name()]
-		reads := c17FieldReads(r.P, pk, f)
-		if !ok {
-			r.Unknown("read@"+f.Name(), f.Pos(), "option field %s has no documented role in the rule table (noID, noMeta, noRelationMembership, includeInvalidPolygons): extend the table together with the documentation", f.Name())
-			continue
-		}
-		if len(reads) == 0 {
-			r.Bad("read@"+f.Name(), f.Pos(), "option field %s is never read: the option does nothing", f.Name())
-			continue
-		}
-		for _, rd := range reads {
-			par := parentsOf(r.P, rd.fi)
-			c := "read@" + rd.fi.Name() + " " + f.Name()
-			ifs, pol, others := c17GuardOf(par, rd.expr)
-			switch role {
-			case "id":
-				switch {
-				case ifs == nil || pol != -1 || len(others) != 0:
-					r.Bad(c, rd.expr.Pos(), "%s is read outside the form `if !%s { f.ID = … }`: an option that omits the feature id may only guard the assignment of Feature.ID", f.Name(), src(fset, rd.expr))
-				case ifs.Else != nil || ifs.Init != nil:
-					r.Bad(c, rd.expr.Pos(), "`if !%s` has an else/init part: with the option set something is done that is not done otherwise", src(fset, rd.expr))
-				default:
-					badStmt := ""
-					for _, st := range ifs.Body.List {
-						as, ok := st.(*ast.AssignStmt)
-						okID := ok
-						if ok {
-							for _, l := range as.Lhs {
-								fv := fieldOf(info, l)
-								if fv == nil || fv.Name() != "ID" || namedPath(info.TypeOf(ast.Unparen(l).(*ast.SelectorExpr).X)) != c17FeaturePath {
-									okID = false
-								}
-							}
-						}
-						if !okID && badStmt == "" {
-							badStmt = src(fset, st)
-						}
-					}
-					if badStmt != "" {
-						r.Bad(c, rd.expr.Pos(), "`if !%s` also guards `%s`: NoID must change nothing but the feature id", src(fset, rd.expr), badStmt)
-					} else {
-						r.OK(c, rd.expr.Pos(), "`if !%s` guards only assignments to geojson.Feature.ID (%d statement(s)), no else", src(fset, rd.expr), len(ifs.Body.List))
-					}
-				}
-			case "meta":
-				blk, _ := par[ifs].(*ast.BlockStmt)
-				switch {
-				case ifs == nil || pol != 1 || len(others) != 0:
-					r.Bad(c, rd.expr.Pos(), "%s is read outside the form `if %s { return }` placed before the meta object is built: NoMeta may only suppress the meta property", f.Name(), src(fset, rd.expr))
-				case ifs.Else != nil || ifs.Init != nil || len(ifs.Body.List) != 1 || blk != rd.fi.Decl.Body:
-					r.Bad(c, rd.expr.Pos(), "the %s guard is not a plain top-level `if %s { return }`", f.Name(), src(fset, rd.expr))
-				default:
-					ret, isRet := ifs.Body.List[0].(*ast.ReturnStmt)
-					if !isRet || len(ret.Results) != 0 {
-						r.Bad(c, rd.expr.Pos(), "the %s guard does not simply return", f.Name())
-						break
-					}
-					var before, after []ast.Stmt
-					for i, st := range blk.List {
-						if st == ifs {
-							before, after = blk.List[:i], blk.List[i+1:]
-						}
-					}
-					nMeta := 0
-					var metaObj types.Object
-					allow := func(l ast.Expr, as *ast.AssignStmt, i int) bool {
-						if k, ok := c17PropKey(info, l); ok && k == "meta" {
-							if ro := rootObj(info, l); ro != nil {
-								if v, ok := ro.(*types.Var); ok && c17IsParam(rd.fi, v) && len(as.Rhs) == len(as.Lhs) {
-									if mo := objOf(info, as.Rhs[i]); mo != nil && c17IsLocalTo(mo, ifsAfterScope(after)) {
-										nMeta++
-										metaObj = mo
-										return true
-									}
-								}
-							}
-						}
-						return false
-					}
-					bad, unknown := c17RegionEffects(fset, info, after, ifsAfterScope(after), allow)
-					metaBefore := false
-					for _, st := range before {
-						ast.Inspect(st, func(n ast.Node) bool {
-							if as, ok := n.(*ast.AssignStmt); ok {
-								for _, l := range as.Lhs {
-									if k, ok := c17PropKey(info, l); ok && k == "meta" {
-										metaBefore = true
-									}
-								}
-							}
-							return true
-						})
-					}
-					switch {
-					case bad != "":
-						r.Bad(c, rd.expr.Pos(), "`if %s { return }` also skips %s: with NoMeta set more than the meta property is removed from the feature", src(fset, rd.expr), bad)
-					case unknown != "":
-						r.Unknown(c, rd.expr.Pos(), "`if %s { return }` skips a %s", src(fset, rd.expr), unknown)
-					case nMeta != 1:
-						r.Bad(c, rd.expr.Pos(), "the statements after the %s guard store the meta object into the properties %d times (expected once)", f.Name(), nMeta)
-					case metaBefore:
-						r.Bad(c, rd.expr.Pos(), "the meta property is also assigned before the %s guard: NoMeta does not remove it", f.Name())
-					default:
-						r.OK(c, rd.expr.Pos(), "`if %s { return }` skips only the construction of local %s and the single `props[\"meta\"] = %s` (%d statement(s) after the guard)", src(fset, rd.expr), metaObj.Name(), metaObj.Name(), len(after))
-					}
-				}
-			case "membership":
-				switch {
-				case ifs != nil && pol == -1 && len(others) == 0:
-					// property guard
-					if ifs.Else != nil || ifs.Init != nil {
-						r.Bad(c, rd.expr.Pos(), "`if !%s` has an else/init part", src(fset, rd.expr))
-						break
-					}
-					n := 0
-					allow := func(l ast.Expr, as *ast.AssignStmt, i int) bool {
-						if k, ok := c17PropKey(info, l); ok && k == "relations" {
-							n++
-							return true
-						}
-						return false
-					}
-					bad, unknown := c17RegionEffects(fset, info, ifs.Body.List, ifs.Body, allow)
-					switch {
-					case bad != "":
-						r.Bad(c, rd.expr.Pos(), "`if !%s` also guards %s: NoRelationMembership must remove nothing but the relations property", src(fset, rd.expr), bad)
-					case unknown != "":
-						r.Unknown(c, rd.expr.Pos(), "`if !%s` guards a %s", src(fset, rd.expr), unknown)
-					case n == 0:
-						r.Bad(c, rd.expr.Pos(), "`if !%s` does not assign the relations property", src(fset, rd.expr))
-					default:
-						propGuards = append(propGuards, ifs)
-						r.OK(c, rd.expr.Pos(), "`if !%s` guards only locals and %d assignment(s) of the `relations` property", src(fset, rd.expr), n)
-					}
-				case ifs != nil && pol == 1 && len(others) == 1:
-					// bookkeeping guard: if opt && m.Type != osm.TypeNode { continue }
-					loop, _ := enclosing(par, ifs, func(n ast.Node) bool { _, ok := n.(*ast.RangeStmt); return ok }).(*ast.RangeStmt)
-					bookkeeping = loop
-					okOther := false
-					if be, ok := ast.Unparen(others[0]).(*ast.BinaryExpr); ok && be.Op == token.NEQ && loop != nil && loop.Value != nil {
-						tf := fieldOf(info, be.X)
-						cobj := objOf(info, ast.Unparen(be.Y))
-						if sel, ok := ast.Unparen(be.Y).(*ast.SelectorExpr); ok {
-							cobj = info.Uses[sel.Sel]
-						}
-						if tf != nil && tf.Name() == "Type" && rootObj(info, be.X) == objOf(info, loop.Value) &&
-							namedPath(info.TypeOf(loop.Value)) == core.ModulePath+".Member" &&
-							cobj != nil && cobj.Pkg() != nil && cobj.Pkg().Path() == core.ModulePath && cobj.Name() == "TypeNode" {
-							okOther = true
-						}
-					}
-					switch {
-					case loop == nil || par[ifs] != loop.Body:
-						r.Bad(c, rd.expr.Pos(), "the %s bookkeeping guard is not a top-level statement of a loop over relation members", f.Name())
-					case !okOther:
-						r.Bad(c, rd.expr.Pos(), "`%s`: the second conjunct must be `<member>.Type != osm.TypeNode`; node memberships decide which nodes become features and must be recorded whatever the option says", src(fset, ifs.Cond))
-					case ifs.Else != nil || !c17SkipBody(info, rd.fi, ifs.Body) || len(ifs.Body.List) != 1:
-						r.Bad(c, rd.expr.Pos(), "the %s bookkeeping guard does more than `continue`", f.Name())
-					default:
-						if _, isCont := ifs.Body.List[0].(*ast.BranchStmt); !isCont {
-							r.Bad(c, rd.expr.Pos(), "the %s bookkeeping guard leaves the function instead of skipping the member", f.Name())
-							break
-						}
-						var after []ast.Stmt
-						for i, st := range loop.Body.List {
-							if st == ifs {
-								after = loop.Body.List[i+1:]
-							}
-						}
-						outer := ast.Node(loop)
-						if ol := enclosing(par, loop, func(n ast.Node) bool {
-							switch n.(type) {
-							case *ast.RangeStmt, *ast.ForStmt:
-								return true
-							}
-							return false
-						}); ol != nil {
-							outer = ol
-						}
-						allow := func(l ast.Expr, as *ast.AssignStmt, i int) bool {
-							if ix, ok := l.(*ast.IndexExpr); ok && fieldOf(info, ix.X) == o.member {
-								return true
-							}
-							return false
-						}
-						bad, unknown := c17RegionEffects(fset, info, after, outer, allow)
-						switch {
-						case bad != "":
-							r.Bad(c, rd.expr.Pos(), "with the option set the member loop also skips %s, which is not membership bookkeeping", bad)
-						case unknown != "":
-							r.Unknown(c, rd.expr.Pos(), "with the option set the member loop skips a %s", unknown)
-						default:
-							r.OK(c, rd.expr.Pos(), "`%s { continue }` skips only updates of the membership map %s and loop-local state, for non-node members", src(fset, ifs.Cond), o.member.Name())
-						}
-					}
-				default:
-					r.Bad(c, rd.expr.Pos(), "%s is read outside its two documented roles (`if !opt { props[\"relations\"] = … }` and `if opt && m.Type != osm.TypeNode { continue }` in the membership bookkeeping)", f.Name())
-				}
-			case "invalid":
-				c17InvalidRead(r, o, rd, c, f.Name())
-			}
-		}
-	}
-
-	// (c) every assignment of Feature.ID sits under a !noID guard
-	var idField *types.Var
-	for _, f := range o.fields {
-		if c17OptionRoles[f.Name()] == "id" {
-			idField = f
-		}
-	}
-	nID := 0
-	for _, fi := range allFuncs(pk) {
-		par := parentsOf(r.P, fi)
-		ast.Inspect(fi.Decl.Body, func(n ast.Node) bool {
-			as, ok := n.(*ast.AssignStmt)
-			if !ok {
-				return true
-			}
-			for _, l := range as.Lhs {
-				fv := fieldOf(info, l)
-				if fv == nil || fv.Name() != "ID" || namedPath(info.TypeOf(ast.Unparen(l).(*ast.SelectorExpr).X)) != c17FeaturePath {
-					continue
-				}
-				nID++
-				c := "idassign@" + fi.Name()
-				ifs, _ := enclosing(par, as, func(x ast.Node) bool { _, ok := x.(*ast.IfStmt); return ok }).(*ast.IfStmt)
-				okG := false
-				if ifs != nil && idField != nil && par[as] == ifs.Body {
-					if ue, ok := ast.Unparen(ifs.Cond).(*ast.UnaryExpr); ok && ue.Op == token.NOT && fieldOf(info, ue.X) == idField {
-						okG = true
-					}
-				}
-				if okG {
-					r.OK(c, as.Pos(), "`%s` is guarded by `if %s`", src(fset, as), src(fset, ifs.Cond))
-				} else {
-					r.Bad(c, as.Pos(), "`%s` is not guarded by `if !ctx.noID`: NoID(true) would not omit this feature id", src(fset, as))
-				}
-			}
-			return true
-		})
-	}
-	if nID == 0 {
-		r.Anchor("assignments to geojson.Feature.ID in osmgeojson")
-	}
-
-	// (d) the entries skipped by the bookkeeping guard (non-node members) are read nowhere but under the property guard
-	for _, rd := range c17FieldReads(r.P, pk, o.member) {
-		if bookkeeping != nil && rd.expr.Pos() >= bookkeeping.Pos() && rd.expr.End() <= bookkeeping.End() {
-			continue // the bookkeeping itself
-		}
-		par := parentsOf(r.P, rd.fi)
-		// an update of the map from itself (`M[k] = append(M[k], …)`) is bookkeeping, not a use
-		if as, ok := enclosing(par, rd.expr, func(n ast.Node) bool { _, ok := n.(*ast.AssignStmt); return ok }).(*ast.AssignStmt); ok {
-			self := false
-			for _, l := range as.Lhs {
-				if ix, ok := ast.Unparen(l).(*ast.IndexExpr); ok && fieldOf(info, ix.X) == o.member {
-					self = true
-				}
-			}
-			if self {
-				continue
-			}
-		}
-		c := "memberread@" + rd.fi.Name() + " " + src(fset, rd.expr)
-		if ix, ok := par[rd.expr].(*ast.IndexExpr); ok {
-			c = "memberread@" + rd.fi.Name() + " " + src(fset, ix)
-		}
-		underGuard := false
-		for _, g := range propGuards {
-			if rd.expr.Pos() >= g.Body.Pos() && rd.expr.End() <= g.Body.End() {
-				underGuard = true
-			}
-		}
-		if underGuard {
-			r.OK(c, rd.expr.Pos(), "read inside the `if !noRelationMembership` property guard: unreachable when the option is set")
-			continue
-		}
-		ix, _ := par[rd.expr].(*ast.IndexExpr)
-		nodeKey := false
-		if ix != nil && ix.X == rd.expr {
-			if call, ok := ast.Unparen(ix.Index).(*ast.CallExpr); ok {
-				if sel, ok := ast.Unparen(call.Fun).(*ast.SelectorExpr); ok && sel.Sel.Name == "FeatureID" {
-					tp := namedPath(info.TypeOf(sel.X))
-					nodeKey = tp == core.ModulePath+".Node" || tp == core.ModulePath+".NodeID"
-				}
-			}
-		}
-		if nodeKey {
-			r.OK(c, rd.expr.Pos(), "read keyed by a node's FeatureID(): node memberships are recorded whatever the option says")
-		} else {
-			r.Bad(c, rd.expr.Pos(), "`%s` in `%s` reads the membership map outside the `if !noRelationMembership` guard with a key that is not a node's feature id; entries of way/relation members are not recorded when NoRelationMembership is set, so the option would change this result", src(fset, rd.expr), src(fset, par[rd.expr]))
-		}
-	}
-}
-
-// ifsAfterScope returns a node spanning the statements (for locality tests).
-func ifsAfterScope(stmts []ast.Stmt) ast.Node {
-	if len(stmts) == 0 {
-		return &ast.BlockStmt{}
-	}
-	return &ast.BlockStmt{Lbrace: stmts[0].Pos(), List: stmts, Rbrace: stmts[len(stmts)-1].End()}
-}
-
-// c17InvalidRead classifies one read of includeInvalidPolygons (or of a parameter it is passed as).
-func c17InvalidRead(r *core.R, o *c17Opt, rd c17Read, c string, name string) {
-	info, fset := o.info, r.P.Fset
-	par := parentsOf(r.P, rd.fi)
-	if !c17InvalidPolygonFuncs[rd.fi.Name()] {
-		r.Bad(c, rd.expr.Pos(), "%s is read in %s; it is documented for multipolygon relations only and may be read only in buildPolygon/addToMultiPolygon", name, rd.fi.Name())
-		return
-	}
-	if ifs, pol, _ := c17GuardOf(par, rd.expr); ifs != nil {
-		switch {
-		case pol != -1:
-			r.Bad(c, rd.expr.Pos(), "`%s`: the option enables the branch; it may only disable a skip (`… && !%s { return nil / continue }`)", src(fset, ifs.Cond), src(fset, rd.expr))
-		case !c17SkipBody(info, rd.fi, ifs.Body):
-			r.Bad(c, rd.expr.Pos(), "`if %s` does more than skip (return nil / return the unchanged argument / continue)", src(fset, ifs.Cond))
-		default:
-			r.OK(c, rd.expr.Pos(), "`if %s` only skips: `%s`; setting the option removes the skip and nothing else", src(fset, ifs.Cond), src(fset, ifs.Body.List[0]))
-		}
-		return
-	}
-	// argument of a call to a function of the package
-	if call, ok := par[rd.expr].(*ast.CallExpr); ok {
-		fn := callee(info, call)
-		idx := -1
-		for i, a := range call.Args {
-			if a == rd.expr {
-				idx = i
-			}
-		}
-		var target *FuncInfo
-		if fn != nil && fn.Pkg() == o.pk.Types {
-			for _, fi := range allFuncs(o.pk) {
-				if fi.Obj == fn {
-					target = fi
-				}
-			}
-		}
-		if target == nil || idx < 0 || idx >= target.Obj.Type().(*types.Signature).Params().Len() {
-			r.Bad(c, rd.expr.Pos(), "%s is handed to `%s`, which is not a function of the package", name, src(fset, call.Fun))
-			return
-		}
-		prm := target.Obj.Type().(*types.Signature).Params().At(idx)
-		r.OK(c, rd.expr.Pos(), "passed as parameter %s of %s (its reads are classified separately)", prm.Name(), target.Name())
-		n := 0
-		ast.Inspect(target.Decl.Body, func(x ast.Node) bool {
-			id, ok := x.(*ast.Ident)
-			if !ok || info.Uses[id] != prm {
-				return true
-			}
-			n++
-			c17InvalidRead(r, o, c17Read{fi: target, expr: id}, "read@"+target.Name()+" "+name+"(param "+prm.Name()+")", name)
-			return true
-		})
-		if n == 0 {
-			r.Bad("read@"+target.Name()+" "+name+"(param "+prm.Name()+")", target.Decl.Pos(), "parameter %s is never read", prm.Name())
-		}
-		return
-	}
-	r.Bad(c, rd.expr.Pos(), "%s is read in `%s`, outside the forms `… && !opt { skip }` and argument-of-package-function", name, src(fset, par[rd.expr]))
-}
-
 // ---------------------------------------------------------------------------
 // G4: sibling consistency of the meta cases
 
-// c17SameNode compares two syntax trees up to the element type: identifiers must denote the same object,
-// or both the implicit case variable, or fields of the same name and type; literals must be equal.
-func c17SameNode(info *types.Info, a, b ast.Node, va, vb types.Object) bool {
+// c17Cmp compares two case bodies up to the element type: identifiers must denote the same object, or both the
+// implicit case variable, or corresponding locals of the two cases (a bijection built on the way, names do not
+// matter), or fields of the same name and type; literals must be equal.
+type c17Cmp struct {
+	info     *types.Info
+	va, vb   types.Object // the case variables
+	ra, rb   ast.Node     // the two case clauses (locality of identifiers)
+	fwd, bwd map[types.Object]types.Object
+	inits    map[types.Object]ast.Expr
+}
+
+func c17NewCmp(info *types.Info, ra, rb ast.Node, va, vb types.Object) *c17Cmp {
+	return &c17Cmp{info: info, va: va, vb: vb, ra: ra, rb: rb, fwd: map[types.Object]types.Object{}, bwd: map[types.Object]types.Object{}, inits: map[types.Object]ast.Expr{}}
+}
+
+func (c *c17Cmp) clone() *c17Cmp {
+	d := c17NewCmp(c.info, c.ra, c.rb, c.va, c.vb)
+	d.inits = c.inits
+	for k, v := range c.fwd {
+		d.fwd[k] = v
+	}
+	for k, v := range c.bwd {
+		d.bwd[k] = v
+	}
+	return d
+}
+
+// defInit returns E when o is a case-local variable defined exactly once by `o := E` in clause, E being free of
+// calls with unknown effects: such a local is a name for E (`if uid := e.UserID; uid != 0 { m["uid"] = uid }`).
+func (c *c17Cmp) defInit(o types.Object, clause ast.Node) ast.Expr {
+	if o == nil || !c17IsLocalTo(o, clause) {
+		return nil
+	}
+	if e, ok := c.inits[o]; ok {
+		return e
+	}
+	var init ast.Expr
+	n := 0
+	ast.Inspect(clause, func(x ast.Node) bool {
+		switch s := x.(type) {
+		case *ast.AssignStmt:
+			for i, l := range s.Lhs {
+				if objOf(c.info, l) != o {
+					continue
+				}
+				n++
+				if s.Tok == token.DEFINE && len(s.Lhs) == len(s.Rhs) {
+					init = s.Rhs[i]
+				} else {
+					n++
+				}
+			}
+		case *ast.IncDecStmt:
+			if objOf(c.info, s.X) == o {
+				n += 2
+			}
+		case *ast.UnaryExpr:
+			if s.Op == token.AND && objOf(c.info, s.X) == o {
+				n += 2
+			}
+		}
+		return true
+	})
+	if n != 1 || init == nil {
+		init = nil
+	} else {
+		ast.Inspect(init, func(x ast.Node) bool {
+			if call, ok := x.(*ast.CallExpr); ok && !c17PureCall(c.info, call) {
+				init = nil
+			}
+			return init != nil
+		})
+	}
+	c.inits[o] = init
+	return init
+}
+
+// expand replaces an identifier naming a defInit local by the expression it stands for.
+func (c *c17Cmp) expand(n ast.Node, clause ast.Node) ast.Node {
+	for i := 0; i < 3; i++ {
+		id, ok := n.(*ast.Ident)
+		if !ok {
+			return n
+		}
+		e := c.defInit(c.info.Uses[id], clause)
+		if e == nil {
+			return n
+		}
+		n = ast.Unparen(e)
+	}
+	return n
+}
+
+// isNaming reports whether st only defines defInit locals (it then has no counterpart of its own).
+func (c *c17Cmp) isNaming(st ast.Stmt, clause ast.Node) bool {
+	as, ok := st.(*ast.AssignStmt)
+	if !ok || as.Tok != token.DEFINE {
+		return false
+	}
+	for _, l := range as.Lhs {
+		if c.defInit(objOf(c.info, l), clause) == nil {
+			return false
+		}
+	}
+	return true
+}
+
+func (c *c17Cmp) stmts(list []ast.Stmt, clause ast.Node) []ast.Stmt {
+	var out []ast.Stmt
+	for _, st := range list {
+		if !c.isNaming(st, clause) {
+			out = append(out, st)
+		}
+	}
+	return out
+}
+
+func (c *c17Cmp) same(a, b ast.Node) bool {
+	info := c.info
+	if a != nil && b != nil {
+		a, b = c.expand(a, c.ra), c.expand(b, c.rb)
+		if pa, ok := a.(*ast.ParenExpr); ok {
+			a = pa.X
+		}
+		if pb, ok := b.(*ast.ParenExpr); ok {
+			b = pb.X
+		}
+	}
 	if a == nil || b == nil {
 		return a == nil && b == nil
 	}
@@ -1915,10 +1500,28 @@ func c17SameNode(info *types.Info, a, b ast.Node, va, vb types.Object) bool {
 		if ob == nil {
 			ob = info.Defs[y]
 		}
-		if oa == va || ob == vb {
-			return oa == va && ob == vb
+		if oa == nil || ob == nil {
+			return oa == nil && ob == nil && x.Name == y.Name // blank identifiers
 		}
-		return oa == ob && x.Name == y.Name
+		if oa == c.va || ob == c.vb {
+			return oa == c.va && ob == c.vb
+		}
+		la, lb := c17IsLocalTo(oa, c.ra), c17IsLocalTo(ob, c.rb)
+		if la || lb {
+			// locals of the two cases correspond one to one, whatever their names
+			if !la || !lb || !types.Identical(oa.Type(), ob.Type()) {
+				return false
+			}
+			if p, ok := c.fwd[oa]; ok {
+				return p == ob
+			}
+			if _, ok := c.bwd[ob]; ok {
+				return false
+			}
+			c.fwd[oa], c.bwd[ob] = ob, oa
+			return true
+		}
+		return oa == ob
 	case *ast.SelectorExpr:
 		y, ok := b.(*ast.SelectorExpr)
 		if !ok || x.Sel.Name != y.Sel.Name {
@@ -1935,54 +1538,54 @@ func c17SameNode(info *types.Info, a, b ast.Node, va, vb types.Object) bool {
 		} else if info.Uses[x.Sel] != info.Uses[y.Sel] {
 			return false
 		}
-		return c17SameNode(info, x.X, y.X, va, vb)
+		return c.same(x.X, y.X)
 	case *ast.BasicLit:
 		y, ok := b.(*ast.BasicLit)
 		return ok && x.Kind == y.Kind && x.Value == y.Value
 	case *ast.ParenExpr:
 		y, ok := b.(*ast.ParenExpr)
-		return ok && c17SameNode(info, x.X, y.X, va, vb)
+		return ok && c.same(x.X, y.X)
 	case *ast.UnaryExpr:
 		y, ok := b.(*ast.UnaryExpr)
-		return ok && x.Op == y.Op && c17SameNode(info, x.X, y.X, va, vb)
+		return ok && x.Op == y.Op && c.same(x.X, y.X)
 	case *ast.BinaryExpr:
 		y, ok := b.(*ast.BinaryExpr)
-		return ok && x.Op == y.Op && c17SameNode(info, x.X, y.X, va, vb) && c17SameNode(info, x.Y, y.Y, va, vb)
+		return ok && x.Op == y.Op && c.same(x.X, y.X) && c.same(x.Y, y.Y)
 	case *ast.CallExpr:
 		y, ok := b.(*ast.CallExpr)
-		if !ok || len(x.Args) != len(y.Args) || x.Ellipsis.IsValid() != y.Ellipsis.IsValid() || !c17SameNode(info, x.Fun, y.Fun, va, vb) {
+		if !ok || len(x.Args) != len(y.Args) || x.Ellipsis.IsValid() != y.Ellipsis.IsValid() || !c.same(x.Fun, y.Fun) {
 			return false
 		}
 		for i := range x.Args {
-			if !c17SameNode(info, x.Args[i], y.Args[i], va, vb) {
+			if !c.same(x.Args[i], y.Args[i]) {
 				return false
 			}
 		}
 		return true
 	case *ast.IndexExpr:
 		y, ok := b.(*ast.IndexExpr)
-		return ok && c17SameNode(info, x.X, y.X, va, vb) && c17SameNode(info, x.Index, y.Index, va, vb)
+		return ok && c.same(x.X, y.X) && c.same(x.Index, y.Index)
 	case *ast.StarExpr:
 		y, ok := b.(*ast.StarExpr)
-		return ok && c17SameNode(info, x.X, y.X, va, vb)
+		return ok && c.same(x.X, y.X)
 	case *ast.ExprStmt:
 		y, ok := b.(*ast.ExprStmt)
-		return ok && c17SameNode(info, x.X, y.X, va, vb)
+		return ok && c.same(x.X, y.X)
 	case *ast.IncDecStmt:
 		y, ok := b.(*ast.IncDecStmt)
-		return ok && x.Tok == y.Tok && c17SameNode(info, x.X, y.X, va, vb)
+		return ok && x.Tok == y.Tok && c.same(x.X, y.X)
 	case *ast.AssignStmt:
 		y, ok := b.(*ast.AssignStmt)
 		if !ok || x.Tok != y.Tok || len(x.Lhs) != len(y.Lhs) || len(x.Rhs) != len(y.Rhs) {
 			return false
 		}
 		for i := range x.Lhs {
-			if !c17SameNode(info, x.Lhs[i], y.Lhs[i], va, vb) {
+			if !c.same(x.Lhs[i], y.Lhs[i]) {
 				return false
 			}
 		}
 		for i := range x.Rhs {
-			if !c17SameNode(info, x.Rhs[i], y.Rhs[i], va, vb) {
+			if !c.same(x.Rhs[i], y.Rhs[i]) {
 				return false
 			}
 		}
@@ -1993,7 +1596,7 @@ func c17SameNode(info *types.Info, a, b ast.Node, va, vb types.Object) bool {
 			return false
 		}
 		for i := range x.Results {
-			if !c17SameNode(info, x.Results[i], y.Results[i], va, vb) {
+			if !c.same(x.Results[i], y.Results[i]) {
 				return false
 			}
 		}
@@ -2003,29 +1606,170 @@ func c17SameNode(info *types.Info, a, b ast.Node, va, vb types.Object) bool {
 		return ok && x.Tok == y.Tok
 	case *ast.BlockStmt:
 		y, ok := b.(*ast.BlockStmt)
-		if !ok || len(x.List) != len(y.List) {
+		if !ok {
 			return false
 		}
-		for i := range x.List {
-			if !c17SameNode(info, x.List[i], y.List[i], va, vb) {
+		lx, ly := c.stmts(x.List, c.ra), c.stmts(y.List, c.rb)
+		if len(lx) != len(ly) {
+			return false
+		}
+		for i := range lx {
+			if !c.same(lx[i], ly[i]) {
 				return false
 			}
 		}
 		return true
 	case *ast.IfStmt:
 		y, ok := b.(*ast.IfStmt)
-		if !ok || (x.Init == nil) != (y.Init == nil) || (x.Else == nil) != (y.Else == nil) {
+		if !ok {
 			return false
 		}
-		if x.Init != nil && !c17SameNode(info, x.Init, y.Init, va, vb) {
+		ix, iy := x.Init, y.Init
+		if ix != nil && c.isNaming(ix, c.ra) {
+			ix = nil
+		}
+		if iy != nil && c.isNaming(iy, c.rb) {
+			iy = nil
+		}
+		if (ix == nil) != (iy == nil) || (x.Else == nil) != (y.Else == nil) {
 			return false
 		}
-		if x.Else != nil && !c17SameNode(info, x.Else, y.Else, va, vb) {
+		if ix != nil && !c.same(ix, iy) {
 			return false
 		}
-		return c17SameNode(info, x.Cond, y.Cond, va, vb) && c17SameNode(info, x.Body, y.Body, va, vb)
+		if x.Else != nil && !c.same(x.Else, y.Else) {
+			return false
+		}
+		return c.same(x.Cond, y.Cond) && c.same(x.Body, y.Body)
 	}
 	return false // statement kinds outside the enumerated ones never compare equal
+}
+
+// c17CommutingFill reports whether st only fills constant keys of one map (`M["k"] = v`, possibly under a
+// side-effect-free condition) and returns the keys: such statements of one case commute with each other.
+func c17CommutingFill(info *types.Info, st ast.Stmt) ([]string, types.Object, bool) {
+	var keys []string
+	var m types.Object
+	ok := true
+	var visit func(st ast.Stmt)
+	visit = func(st ast.Stmt) {
+		switch x := st.(type) {
+		case *ast.AssignStmt:
+			if x.Tok != token.ASSIGN {
+				ok = false
+				return
+			}
+			for _, l := range x.Lhs {
+				k, isProp := c17PropKey(info, l)
+				root := rootObj(info, l)
+				if !isProp || root == nil || (m != nil && root != m) {
+					ok = false
+					return
+				}
+				m = root
+				keys = append(keys, k)
+			}
+			for _, rhs := range x.Rhs {
+				ast.Inspect(rhs, func(n ast.Node) bool {
+					if call, isCall := n.(*ast.CallExpr); isCall && !c17PureCall(info, call) {
+						ok = false
+					}
+					return ok
+				})
+			}
+		case *ast.IfStmt:
+			if x.Init != nil || x.Else != nil {
+				ok = false
+				return
+			}
+			ast.Inspect(x.Cond, func(n ast.Node) bool {
+				if call, isCall := n.(*ast.CallExpr); isCall && !c17PureCall(info, call) {
+					ok = false
+				}
+				return ok
+			})
+			for _, b := range x.Body.List {
+				visit(b)
+			}
+		default:
+			ok = false
+		}
+	}
+	visit(st)
+	if ok && m != nil {
+		// the values must not read the map being filled
+		ast.Inspect(st, func(n ast.Node) bool {
+			if ix, isIx := n.(*ast.IndexExpr); isIx && rootObj(info, ix) == m {
+				if _, isKey := c17PropKey(info, ix); !isKey {
+					ok = false
+				}
+			}
+			return ok
+		})
+	}
+	return keys, m, ok && m != nil
+}
+
+// c17SameBodies compares two case bodies: statement by statement, or, when every statement of both is a commuting
+// map fill with distinct keys, as sets (the order in which distinct keys of a map are filled is not observable).
+func c17SameBodies(fset *token.FileSet, cmp *c17Cmp, ref, cc []ast.Stmt) (diff string, dpos token.Pos) {
+	ref, cc = cmp.stmts(ref, cmp.ra), cmp.stmts(cc, cmp.rb)
+	seq := cmp.clone()
+	for i := 0; i < len(ref) || i < len(cc); i++ {
+		switch {
+		case i >= len(cc):
+			diff = fmt.Sprintf("statement %d of the node case, `%s`, has no counterpart", i+1, src(fset, ref[i]))
+			if len(cc) > 0 {
+				dpos = cc[len(cc)-1].Pos()
+			}
+		case i >= len(ref):
+			diff = fmt.Sprintf("extra statement `%s`", src(fset, cc[i]))
+			dpos = cc[i].Pos()
+		case !seq.same(ref[i], cc[i]):
+			diff = fmt.Sprintf("statement %d is `%s` where the node case has `%s`", i+1, src(fset, cc[i]), src(fset, ref[i]))
+			dpos = cc[i].Pos()
+		}
+		if diff != "" {
+			break
+		}
+	}
+	if diff == "" || len(ref) != len(cc) {
+		return
+	}
+	// order-insensitive comparison
+	for _, list := range [][]ast.Stmt{ref, cc} {
+		local := map[string]bool{}
+		for _, st := range list {
+			keys, _, ok := c17CommutingFill(cmp.info, st)
+			if !ok {
+				return
+			}
+			for _, k := range keys {
+				if local[k] {
+					return // the same key filled twice: order matters
+				}
+				local[k] = true
+			}
+		}
+	}
+	used := make([]bool, len(cc))
+	for _, rs := range ref {
+		found := false
+		for j, cs := range cc {
+			if used[j] {
+				continue
+			}
+			try := cmp.clone()
+			if try.same(rs, cs) {
+				used[j], found = true, true
+				break
+			}
+		}
+		if !found {
+			return fmt.Sprintf("`%s` of the node case has no counterpart (in any order)", src(fset, rs)), cc[0].Pos()
+		}
+	}
+	return "", token.NoPos
 }
 
 func c17G4(r *core.R) {
@@ -2075,9 +1819,13 @@ func c17G4(r *core.R) {
 			nsw++
 			ref := cases[want[0]]
 			refVar := info.Implicits[ref]
-			// the reference case: which properties it writes
+			// the reference case must do something with the element (vacuity)
+			usesVar := false
 			var keys []string
 			ast.Inspect(ref, func(m ast.Node) bool {
+				if id, ok := m.(*ast.Ident); ok && refVar != nil && info.Uses[id] == refVar {
+					usesVar = true
+				}
 				if as, ok := m.(*ast.AssignStmt); ok {
 					for _, l := range as.Lhs {
 						if k, ok := c17PropKey(info, l); ok {
@@ -2087,11 +1835,15 @@ func c17G4(r *core.R) {
 				}
 				return true
 			})
-			cname := "metacase@" + fi.Name()
-			if len(ref.Body) == 0 || len(keys) == 0 {
-				r.Bad(cname+" *osm.Node", ref.Pos(), "the node case writes no meta entries")
+			cname := "metacase"
+			what := fmt.Sprintf("%d statement(s) reading the element", len(ref.Body))
+			if len(keys) > 0 {
+				what += " and writing {" + strings.Join(keys, ", ") + "}"
+			}
+			if len(ref.Body) == 0 || !usesVar {
+				r.Bad(cname+" *osm.Node", ref.Pos(), "the node case of the type switch over osm.Element in %s does not read the element: no meta data is produced", fi.Name())
 			} else {
-				r.OK(cname+" *osm.Node", ref.Pos(), "reference case: %d statement(s) writing {%s}", len(ref.Body), strings.Join(keys, ", "))
+				r.OK(cname+" *osm.Node", ref.Pos(), "reference case in %s: %s", fi.Name(), what)
 			}
 			for _, w := range want[1:] {
 				short := "*osm." + w[strings.LastIndexByte(w, '.')+1:]
@@ -2100,29 +1852,15 @@ func c17G4(r *core.R) {
 					r.Bad(cname+" "+short, ts.Pos(), "the type switch over osm.Element has no case %s: its meta data would be dropped (or the conversion would panic)", short)
 					continue
 				}
-				v := info.Implicits[cc]
-				diff := ""
-				var dpos token.Pos
-				for i := 0; i < len(ref.Body) || i < len(cc.Body); i++ {
-					switch {
-					case i >= len(cc.Body):
-						diff = fmt.Sprintf("statement %d of the node case, `%s`, has no counterpart", i+1, src(fset, ref.Body[i]))
-						dpos = cc.Pos()
-					case i >= len(ref.Body):
-						diff = fmt.Sprintf("extra statement `%s`", src(fset, cc.Body[i]))
-						dpos = cc.Body[i].Pos()
-					case !c17SameNode(info, ref.Body[i], cc.Body[i], refVar, v):
-						diff = fmt.Sprintf("statement %d is `%s` where the node case has `%s`", i+1, src(fset, cc.Body[i]), src(fset, ref.Body[i]))
-						dpos = cc.Body[i].Pos()
-					}
-					if diff != "" {
-						break
-					}
+				cmp := c17NewCmp(info, ref, cc, refVar, info.Implicits[cc])
+				diff, dpos := c17SameBodies(fset, cmp, ref.Body, cc.Body)
+				if !dpos.IsValid() {
+					dpos = cc.Pos()
 				}
 				if diff != "" {
 					r.Bad(cname+" "+short, dpos, "case %s differs from case *osm.Node: %s; the meta object of a feature must not depend on the element type", short, diff)
 				} else {
-					r.OK(cname+" "+short, cc.Pos(), "case %s is identical to case *osm.Node up to the element type (%d statement(s), fields matched by name and type)", short, len(cc.Body))
+					r.OK(cname+" "+short, cc.Pos(), "case %s is identical to case *osm.Node up to the element type, the names of case-local variables and the order of independent map fills (%d statement(s), fields matched by name and type)", short, len(cc.Body))
 				}
 			}
 			return true
@@ -2130,302 +1868,5 @@ func c17G4(r *core.R) {
 	}
 	if nsw == 0 {
 		r.Anchor("type switch over osm.Element with cases *osm.Node/*osm.Way/*osm.Relation in osmgeojson")
-	}
-}
-
-// ---------------------------------------------------------------------------
-// G5: one feature per element
-
-func c17G5(r *core.R) {
-	o := c17LoadOptions(r)
-	if o == nil {
-		return
-	}
-	pk, info, fset := o.pk, o.info, r.P.Fset
-	fi := findFunc(pk, "Convert")
-	if fi == nil {
-		r.Anchor("osmgeojson.Convert")
-		return
-	}
-	if o.skip == nil {
-		r.Anchor("context field of type map[osm.WayID]struct{} (skippable ways)")
-		return
-	}
-	// the feature list: the variable stored into FeatureCollection.Features
-	var features types.Object
-	ast.Inspect(fi.Decl.Body, func(n ast.Node) bool {
-		if as, ok := n.(*ast.AssignStmt); ok && len(as.Lhs) == 1 && len(as.Rhs) == 1 {
-			if f := fieldOf(info, as.Lhs[0]); f != nil && f.Name() == "Features" && strings.HasSuffix(namedPath(info.TypeOf(ast.Unparen(as.Lhs[0]).(*ast.SelectorExpr).X)), "geojson.FeatureCollection") {
-				features = objOf(info, as.Rhs[0])
-			}
-		}
-		return true
-	})
-	if features == nil {
-		r.Anchor("`fc.Features = <variable>` in Convert")
-		return
-	}
-	par := parentsOf(r.P, fi)
-	g := newCFG(info, fi.Decl.Body)
-	dom := dominators(g)
-	// appends to the feature list
-	type app struct {
-		as    *ast.AssignStmt
-		count int // elements appended; -1 = unbounded
-		loop  *ast.RangeStmt
-	}
-	var apps []app
-	bad := false
-	ast.Inspect(fi.Decl.Body, func(n ast.Node) bool {
-		as, ok := n.(*ast.AssignStmt)
-		if !ok {
-			return true
-		}
-		for i, l := range as.Lhs {
-			if objOf(info, l) != features || as.Tok == token.DEFINE {
-				continue
-			}
-			var rhs ast.Expr
-			if len(as.Rhs) == len(as.Lhs) {
-				rhs = as.Rhs[i]
-			}
-			call, ok := rhs.(*ast.CallExpr)
-			if !ok || builtinName(info, call) != "append" || len(call.Args) == 0 || objOf(info, call.Args[0]) != features {
-				r.Bad("featurelist@Convert", as.Pos(), "`%s`: the feature list is reassigned by something other than `%s = append(%s, f)`; features could be dropped or duplicated", src(fset, as), features.Name(), features.Name())
-				bad = true
-				continue
-			}
-			a := app{as: as, count: len(call.Args) - 1}
-			if call.Ellipsis.IsValid() {
-				a.count = -1
-			}
-			// outermost enclosing loop
-			for p := par[ast.Node(as)]; p != nil; p = par[p] {
-				switch l := p.(type) {
-				case *ast.RangeStmt:
-					a.loop = l
-				case *ast.ForStmt:
-					a.loop = nil
-					r.Bad("featurelist@Convert", as.Pos(), "`%s` sits in a for loop that is not a range over input elements", src(fset, as))
-					bad = true
-				}
-			}
-			apps = append(apps, a)
-		}
-		return true
-	})
-	_ = bad
-	// element loops: outermost range loops over osm.Relations / osm.Ways / osm.Nodes containing an append
-	kinds := map[string]string{core.ModulePath + ".Relations": "relations", core.ModulePath + ".Ways": "ways", core.ModulePath + ".Nodes": "nodes"}
-	loops := map[string]*ast.RangeStmt{}
-	for _, a := range apps {
-		if a.loop == nil {
-			r.Bad("featurelist@Convert", a.as.Pos(), "`%s` is outside any loop over input elements: a feature without an element", src(fset, a.as))
-			continue
-		}
-		k := kinds[namedPath(info.TypeOf(a.loop.X))]
-		if k == "" {
-			r.Bad("featurelist@Convert", a.as.Pos(), "`%s` is inside a loop over %s, which is not the input's Relations, Ways or Nodes", src(fset, a.as), src(fset, a.loop.X))
-			continue
-		}
-		if prev, ok := loops[k]; ok && prev != a.loop {
-			r.Bad("loop@Convert "+k, a.loop.Pos(), "two loops over the input %s append features: an element can yield two features", k)
-			continue
-		}
-		loops[k] = a.loop
-	}
-	for _, k := range []string{"relations", "ways", "nodes"} {
-		loop := loops[k]
-		c := "loop@Convert " + k
-		if loop == nil {
-			r.Bad(c, fi.Decl.Pos(), "no loop over the input %s appends to the feature list", k)
-			continue
-		}
-		var head *cfg.Block
-		for _, b := range g.Blocks {
-			if b.Kind == cfg.KindRangeLoop && b.Stmt == loop {
-				head = b
-			}
-		}
-		if head == nil {
-			r.Unknown(c, loop.Pos(), "range loop not found in the control-flow graph")
-			continue
-		}
-		// weight of a block = features appended in it
-		weight := map[*cfg.Block]int{}
-		unbounded := false
-		for _, a := range apps {
-			if a.loop != loop {
-				continue
-			}
-			b, _ := blockOf(g, a.as.Pos())
-			if b == nil {
-				unbounded = true
-				continue
-			}
-			if a.count < 0 {
-				unbounded = true
-			}
-			weight[b] += a.count
-			// an inner loop around the append makes the count unbounded
-			for p := par[ast.Node(a.as)]; p != nil && p != ast.Node(loop); p = par[p] {
-				switch p.(type) {
-				case *ast.RangeStmt, *ast.ForStmt:
-					unbounded = true
-				}
-			}
-		}
-		if unbounded {
-			r.Bad(c, loop.Pos(), "the %s loop appends an unbounded number of features per element (append inside an inner loop or with a spread argument)", k)
-			continue
-		}
-		// longest path from the loop head through the body back to the head
-		var body *cfg.Block
-		for _, s := range head.Succs {
-			if s.Kind == cfg.KindRangeBody && s.Stmt == loop {
-				body = s
-			}
-		}
-		if body == nil && len(head.Succs) > 0 {
-			body = head.Succs[0]
-		}
-		memo := map[*cfg.Block]int{}
-		state := map[*cfg.Block]int{}
-		paths := 0
-		var longest func(b *cfg.Block) int
-		longest = func(b *cfg.Block) int {
-			if b == head {
-				paths++
-				return 0
-			}
-			if state[b] == 2 {
-				return memo[b]
-			}
-			if state[b] == 1 {
-				return 0 // inner cycle: carries no append (checked above)
-			}
-			state[b] = 1
-			best := 0
-			for _, s := range b.Succs {
-				if v := longest(s); v > best {
-					best = v
-				}
-			}
-			state[b] = 2
-			memo[b] = best + weight[b]
-			return memo[b]
-		}
-		max := 0
-		if body != nil {
-			max = longest(body)
-		}
-		nblocks := len(memo)
-		if max > 1 {
-			r.Bad(c, loop.Pos(), "some path through one iteration of the %s loop appends %d features: an element must yield at most one feature", k, max)
-			continue
-		}
-		r.OK(c, loop.Pos(), "every path through one iteration (%d block(s)) appends at most %d feature to %s", nblocks, max, features.Name())
-		r.Stat("loop_body_blocks", nblocks)
-
-		if k == "ways" {
-			// the skippable guard: if _, skip := ctx.skippable[way.ID]; skip { continue } dominating the append
-			cs := "skippable@Convert ways"
-			var guard *ast.IfStmt
-			for _, st := range loop.Body.List {
-				ifs, ok := st.(*ast.IfStmt)
-				if !ok || ifs.Init == nil {
-					continue
-				}
-				as, ok := ifs.Init.(*ast.AssignStmt)
-				if !ok || len(as.Lhs) != 2 || len(as.Rhs) != 1 {
-					continue
-				}
-				ix, ok := ast.Unparen(as.Rhs[0]).(*ast.IndexExpr)
-				if !ok || fieldOf(info, ix.X) != o.skip {
-					continue
-				}
-				kf := fieldOf(info, ix.Index)
-				if kf == nil || kf.Name() != "ID" || loop.Value == nil || rootObj(info, ix.Index) != objOf(info, loop.Value) {
-					continue
-				}
-				if objOf(info, ifs.Cond) == nil || objOf(info, ifs.Cond) != objOf(info, as.Lhs[1]) {
-					continue
-				}
-				guard = ifs
-			}
-			switch {
-			case guard == nil:
-				r.Bad(cs, loop.Pos(), "the ways loop has no `if _, skip := ctx.%s[way.ID]; skip { continue }` on its loop variable: ways already rendered as part of a relation would be emitted a second time", o.skip.Name())
-			case guard.Else != nil || len(guard.Body.List) != 1 || !c17SkipBody(info, fi, guard.Body):
-				r.Bad(cs, guard.Pos(), "the skippable guard does not simply `continue`")
-			default:
-				okDom := true
-				for _, a := range apps {
-					if a.loop == loop && !posDominates(g, dom, guard.Cond.Pos(), a.as.Pos()) {
-						okDom = false
-					}
-					if a.loop == loop {
-						cb, _ := blockOf(g, guard.Cond.Pos())
-						ab, _ := blockOf(g, a.as.Pos())
-						if cb != nil && ab != nil && len(cb.Succs) == 2 {
-							if reachableFrom([]*cfg.Block{cb.Succs[0]}, func(b *cfg.Block) bool { return b == head })[ab] {
-								okDom = false
-							}
-						}
-					}
-				}
-				if okDom {
-					r.OK(cs, guard.Pos(), "`%s; %s { continue }` dominates the append and its true edge returns to the loop head without appending", src(fset, guard.Init), src(fset, guard.Cond))
-				} else {
-					r.Bad(cs, guard.Pos(), "the append of the ways loop is reachable without passing the false edge of the skippable test")
-				}
-			}
-		}
-	}
-	// the skippable set is filled by the relation pass: it must be complete before the ways loop starts
-	co := "order@Convert relations-before-ways"
-	if loops["relations"] != nil && loops["ways"] != nil {
-		var done, whead *cfg.Block
-		for _, b := range g.Blocks {
-			if b.Kind == cfg.KindRangeDone && b.Stmt == loops["relations"] {
-				done = b
-			}
-			if b.Kind == cfg.KindRangeLoop && b.Stmt == loops["ways"] {
-				whead = b
-			}
-		}
-		// writers of the skippable set are only reached from the relation loop
-		writersOK := true
-		var wbad string
-		for _, f2 := range allFuncs(pk) {
-			ast.Inspect(f2.Decl.Body, func(n ast.Node) bool {
-				as, ok := n.(*ast.AssignStmt)
-				if !ok {
-					return true
-				}
-				for _, l := range as.Lhs {
-					if ix, ok := ast.Unparen(l).(*ast.IndexExpr); ok && fieldOf(info, ix.X) == o.skip {
-						if f2.Obj == fi.Obj {
-							if !(as.Pos() >= loops["relations"].Pos() && as.End() <= loops["relations"].End()) {
-								writersOK, wbad = false, src(fset, as)
-							}
-						}
-					}
-				}
-				return true
-			})
-		}
-		switch {
-		case done == nil || whead == nil:
-			r.Unknown(co, fi.Decl.Pos(), "loops not found in the control-flow graph")
-		case !(done == whead || dom[whead][done]):
-			r.Bad(co, loops["ways"].Pos(), "the ways loop can start before the relations loop has finished: the skippable set is filled by the relation pass, so ways rendered inside a relation would be emitted again")
-		case !writersOK:
-			r.Bad(co, loops["ways"].Pos(), "`%s` writes the skippable set outside the relation pass", wbad)
-		default:
-			r.OK(co, loops["ways"].Pos(), "the end of the relations loop dominates the head of the ways loop; Convert writes %s only inside the relation pass", o.skip.Name())
-		}
-	} else {
-		r.Bad(co, fi.Decl.Pos(), "relations/ways loops not identified")
 	}
 }
